@@ -136,7 +136,7 @@ impl<'a> PlaceDescriptor<'a> {
     }
 
     pub fn prev(&self) -> Option<PlaceDescriptor<'a>> {
-        self.unit.find_place_by_idx(self.pos_in_unit - 1)
+        self.unit.find_place_by_idx(self.pos_in_unit.checked_sub(1)?)
     }
 
     pub fn line_eq(&self, other: &PlaceDescriptor) -> bool {
